@@ -7,6 +7,7 @@
 package cmpb
 
 import (
+	"github.com/bufbuild/protocompile/reporter"
 	"github.com/pentops/j5/internal/bcl/errpos"
 )
 
@@ -71,6 +72,22 @@ func Positions(err error) []Pos {
 			return
 		case *errpos.Err:
 			out = append(out, fromErr(e))
+			return
+		case reporter.ErrorWithPos:
+			// protocompile parse/link errors carry their own position type (1-based)
+			sp := e.GetPosition()
+			p := Pos{HasPos: true, Msg: e.Unwrap().Error()}
+			if sp.Filename != "" {
+				p.HasFile = true
+				p.File = sp.Filename
+			}
+			p.StartLine, p.StartCol = sp.Line-1, sp.Col-1
+			p.EndLine, p.EndCol = sp.Line-1, sp.Col-1
+			if sp.Line == 0 {
+				// "unknown position": only a file name
+				p.StartLine, p.StartCol, p.EndLine, p.EndCol = 0, 0, 0, 0
+			}
+			out = append(out, p)
 			return
 		case errpos.HasPosition:
 			p := Pos{Msg: e.Error()}
